@@ -273,7 +273,8 @@ func c02Run(sc *C02Scenario) (v *nodeViolation, flags map[string]bool) {
 				for l < len(a) && l < len(b) && a[l] == b[l] {
 					l++
 				}
-				if l < len(a) && l-1 == toHeight {
+				// chains are listed from sn.chainFrom upward: position l-1 is height chainFrom+l-1
+				if l < len(a) && sn.chainFrom+l-1 == toHeight {
 					return true
 				}
 			}
